@@ -4,12 +4,17 @@ CONSTANTS
   BoundSel = {1,2}
   FactorSel = {1}
   PriorSel = {1,2,4}
+  ModeSel = {1,2,3,4,5}
   KSel = {2,4}
   MaxLevel = 4
   PriorTable = "persist_user_only"
   ViewSpace = "prior_mode"
   DerivedLookup = "derived"
   ObsMerge = "always"
+  ModeStore = "canonical"
+  UpdateGuard = "before"
+  ModeCalls <- MCModeCalls
+  InvalidModes <- MCInvalidModes
   ObsParams <- MCObsParams
   Record = FALSE
   Export = "none"
@@ -37,6 +42,7 @@ PROPERTY OnlyFittedTouched
 PROPERTY FittedAreSet
 PROPERTY SettersKeepValues
 PROPERTY UnknownIsError
+PROPERTY RejectedIsError
 PROPERTY ErrorsChangeNothing
 PROPERTY KnownIsAccepted
 CONSTRAINT LevelBound
